@@ -105,6 +105,10 @@ type gen struct {
 	loop    *loopRec
 	flavor  int
 	prevD   int
+	body    int  // first offset after the prologue
+	didHost bool // a hostile target was really emitted
+	open    map[int]bool
+	fnAt    map[int]int // invocation depth -> body start of the function running there
 }
 
 // flavors bias the action mix.
@@ -119,13 +123,13 @@ const (
 )
 
 func newGen(r *rng.R) *gen {
-	g := &gen{r: r, buf: make([]byte, genBufSize), tramp: map[int]trampInfo{}, tries: map[int][]*tryRec{}}
+	g := &gen{r: r, buf: make([]byte, genBufSize), tramp: map[int]trampInfo{}, tries: map[int][]*tryRec{}, open: map[int]bool{}, fnAt: map[int]int{}}
 	for i := range g.buf {
 		g.buf[i] = byte(opcode.RET)
 	}
 	g.v = vm.New()
 	g.v.Load(g.buf)
-	g.replay = 4000
+	g.replay = 1500
 	g.prevD = 1
 	return g
 }
@@ -178,6 +182,12 @@ func (g *gen) step() {
 		for k := range g.tries {
 			if k > d {
 				delete(g.tries, k)
+			}
+		}
+		for k, f := range g.fnAt {
+			if k > d {
+				delete(g.open, f)
+				delete(g.fnAt, k)
 			}
 		}
 		if g.loop != nil && g.loop.depth > d {
@@ -386,11 +396,7 @@ func (g *gen) pushNewCompound() bool {
 		t := []stackitem.Type{stackitem.AnyT, stackitem.BooleanT, stackitem.IntegerT, stackitem.ByteArrayT, stackitem.ArrayT, stackitem.MapT, stackitem.BufferT}[g.r.Intn(7)]
 		return g.pushSmall(g.r.Intn(4)) && g.ins(opcode.NEWARRAYT, byte(t))
 	default:
-		k := g.r.Intn(3)
-		if k > g.depth() {
-			k = g.depth()
-		}
-		return g.pushSmall(k) && g.ins([]opcode.Opcode{opcode.PACK, opcode.PACKSTRUCT}[g.r.Intn(2)])
+		return g.pushSmall(1+g.r.Intn(3)) && g.ins(opcode.NEWARRAY)
 	}
 }
 
@@ -549,14 +555,39 @@ func (g *gen) pushKeyFor() bool {
 		return g.pushKey()
 	}
 	n := containerLen(it)
+	bad := g.r.Chance(1, 40)
+	if g.catchable() {
+		bad = g.r.Chance(1, 6)
+	}
 	switch {
-	case n > 0 && !g.r.Chance(1, 10):
+	case n > 0 && !bad:
 		return g.pushSmall(g.r.Intn(n))
-	case g.r.Chance(1, 2):
-		return g.pushSmall(n) // out of range: catchable exception
+	case g.r.Chance(2, 3):
+		return g.pushSmall(n) // out of range: catchable exception for PICKITEM / SETITEM
 	default:
 		return g.pushSmall(-1)
 	}
+}
+
+// catchable reports whether a VM exception thrown now would be handled.
+func (g *gen) catchable() bool {
+	for _, l := range g.tries {
+		for _, r := range l {
+			if (r.state == 0 && (r.hasC || r.hasF)) || (r.state == 1 && r.hasF) {
+				return true
+			}
+		}
+	}
+	return false
+}
+
+// nonEmptyOrFill makes sure the container on top has an element (indexing an
+// empty one only produces an exception).
+func (g *gen) emptyTop() bool {
+	if _, ok := g.top(0).(*stackitem.Map); ok {
+		return false
+	}
+	return containerLen(g.top(0)) == 0
 }
 
 // ---------------------------------------------------------------- actions
@@ -566,7 +597,16 @@ func (g *gen) actAppend() bool {
 }
 
 func (g *gen) actSetItem() bool {
-	return g.pushContainer(settable) && g.pushKeyFor() && g.setValue() && g.ins(opcode.SETITEM)
+	if !g.pushContainer(settable) {
+		return false
+	}
+	if g.emptyTop() && !(g.catchable() && g.r.Chance(1, 4)) {
+		if arrOrStruct(g.kindAt(0)) {
+			return g.pushValue() && g.ins(opcode.APPEND)
+		}
+		return g.ins(opcode.SIZE)
+	}
+	return g.pushKeyFor() && g.setValue() && g.ins(opcode.SETITEM)
 }
 
 func (g *gen) setValue() bool {
@@ -577,11 +617,26 @@ func (g *gen) setValue() bool {
 }
 
 func (g *gen) actPickItem() bool {
-	return g.pushContainer(indexable) && g.pushKeyFor() && g.ins(opcode.PICKITEM)
+	if !g.pushContainer(indexable) {
+		return false
+	}
+	if (g.emptyTop() || containerLen(g.top(0)) == 0) && !(g.catchable() && g.r.Chance(1, 3)) {
+		return g.ins(opcode.SIZE)
+	}
+	return g.pushKeyFor() && g.ins(opcode.PICKITEM)
 }
 
 func (g *gen) actRemove() bool {
-	return g.pushContainer(isCompound) && g.pushKeyFor() && g.ins(opcode.REMOVE)
+	if !g.pushContainer(isCompound) {
+		return false
+	}
+	if g.emptyTop() && !g.r.Chance(1, 30) {
+		return g.ins(opcode.CLEARITEMS)
+	}
+	if _, ok := g.top(0).(*stackitem.Map); !ok && containerLen(g.top(0)) > 0 && !g.r.Chance(1, 30) {
+		return g.pushSmall(g.r.Intn(containerLen(g.top(0)))) && g.ins(opcode.REMOVE)
+	}
+	return g.pushKeyFor() && g.ins(opcode.REMOVE)
 }
 
 func (g *gen) actOnContainer() bool {
@@ -605,11 +660,23 @@ func (g *gen) actOnContainer() bool {
 		}
 		return g.ins(c.op)
 	}
-	return g.pushContainer(c.want) && g.ins(c.op)
+	if !g.pushContainer(c.want) {
+		return false
+	}
+	if c.op == opcode.POPITEM && containerLen(g.top(0)) == 0 && !g.r.Chance(1, 30) {
+		return g.pushValue() && g.ins(opcode.APPEND)
+	}
+	return g.ins(c.op)
 }
 
 func (g *gen) actHasKey() bool {
-	return g.pushContainer(indexable) && g.pushKeyFor() && g.ins(opcode.HASKEY)
+	if !g.pushContainer(indexable) {
+		return false
+	}
+	if _, ok := g.top(0).(*stackitem.Map); ok {
+		return g.pushKeyFor() && g.ins(opcode.HASKEY)
+	}
+	return g.pushSmall(g.r.Intn(containerLen(g.top(0))+2)) && g.ins(opcode.HASKEY)
 }
 
 func (g *gen) actPack() bool {
@@ -717,10 +784,10 @@ func (g *gen) actSlots() bool {
 	fs := []fam{{loc, opcode.LDLOC0, opcode.LDLOC, opcode.STLOC0, opcode.STLOC},
 		{arg, opcode.LDARG0, opcode.LDARG, opcode.STARG0, opcode.STARG},
 		{st, opcode.LDSFLD0, opcode.LDSFLD, opcode.STSFLD0, opcode.STSFLD}}
-	if *st == nil && g.r.Chance(1, 2) {
+	if *st == nil && g.loop == nil && g.r.Chance(1, 2) {
 		return g.ins(opcode.INITSSLOT, byte(1+g.r.Intn(4)))
 	}
-	if *loc == nil && *arg == nil && g.r.Chance(1, 2) {
+	if *loc == nil && *arg == nil && g.loop == nil && g.r.Chance(1, 2) {
 		a := g.r.Intn(3)
 		if a > g.depth() {
 			a = g.depth()
@@ -839,7 +906,7 @@ func (g *gen) actBytes() bool {
 		}
 		n := containerLen(g.top(0))
 		l := g.r.Intn(n + 1)
-		if g.r.Chance(1, 8) {
+		if g.r.Chance(1, 25) {
 			l = n + 1
 		}
 		return g.pushSmall(l) && g.ins(opcode.LEFT+opcode.Opcode(g.r.Intn(2)))
@@ -1039,6 +1106,10 @@ func (g *gen) actCall() bool {
 	if !g.sync() {
 		return false
 	}
+	if f := g.funcs[len(g.funcs)-1]; g.v.Context().NextIP() == f {
+		g.open[f] = true
+		g.fnAt[len(g.v.Istack())] = f
+	}
 	// callee prologue
 	if g.r.Chance(3, 4) {
 		na := g.r.Intn(4)
@@ -1059,6 +1130,9 @@ func (g *gen) actCallExisting() bool {
 		return g.actCall()
 	}
 	f := g.funcs[g.r.Intn(len(g.funcs))]
+	if g.open[f] && !g.r.Chance(1, 6) {
+		return g.actCall() // calling a function that is still open is recursion: keep it rare
+	}
 	if g.r.Chance(1, 3) {
 		return g.ins(opcode.PUSHA, le32(f-g.n)...) && g.ins(opcode.CALLA)
 	}
@@ -1073,8 +1147,8 @@ func (g *gen) actCallExisting() bool {
 // limit (invocation depth or item count) faults the script.
 func (g *gen) actRecursion() bool {
 	if len(g.funcs) == 0 {
-		// whole-script recursion
-		return g.ins(opcode.CALLL, le32(0-g.n)...)
+		// whole-script recursion (after the slot prologue)
+		return g.ins(opcode.CALLL, le32(g.body-g.n)...)
 	}
 	f := g.funcs[len(g.funcs)-1]
 	return g.ins(opcode.CALLL, le32(f-g.n)...)
@@ -1152,15 +1226,7 @@ func (g *gen) actEndTry() bool {
 
 func (g *gen) actThrow() bool {
 	// mostly throw only where something can catch it
-	catchable := false
-	for _, l := range g.tries {
-		for _, r := range l {
-			if r.state == 0 || (r.state == 1 && r.hasF) {
-				catchable = true
-			}
-		}
-	}
-	if !catchable && !g.r.Chance(1, 12) {
+	if !g.catchable() && !g.r.Chance(1, 12) {
 		return g.actTry()
 	}
 	switch g.r.Intn(4) {
@@ -1249,6 +1315,7 @@ var hostileData = []byte{byte(opcode.NOP), byte(opcode.NOP), byte(opcode.PUSH1),
 // an offset that is not an instruction boundary.
 func (g *gen) actHostile() bool {
 	g.hostile = false
+	g.didHost = true
 	off := 1 + g.r.Intn(5) // index inside the 8 data bytes
 	data := hostileData
 	switch g.r.Intn(8) {
@@ -1403,7 +1470,6 @@ func genTyped(r *rng.R) (script []byte, flavor int, hostile bool) {
 	g := newGen(r)
 	g.flavor = r.Weighted([]int{4, 5, 3, 2, 2, 3})
 	g.hostile = r.Chance(1, 12)
-	hostile = g.hostile
 	actions := 8 + r.Intn(40)
 	if r.Chance(1, 10) {
 		actions = 60 + r.Intn(120)
@@ -1415,6 +1481,7 @@ func genTyped(r *rng.R) (script []byte, flavor int, hostile bool) {
 	if r.Chance(2, 3) {
 		g.ins(opcode.INITSLOT, byte(1+r.Intn(3)), 0)
 	}
+	g.body = g.n
 	for i := 0; i < actions && !g.stopped && g.room(); i++ {
 		g.action()
 	}
@@ -1437,5 +1504,8 @@ func genTyped(r *rng.R) (script []byte, flavor int, hostile bool) {
 			break
 		}
 	}
-	return append([]byte(nil), g.buf[:g.n]...), g.flavor, hostile
+	// trampolines may point at the frontier: keep it inside the script.
+	g.buf[g.n] = byte(opcode.RET)
+	g.n++
+	return append([]byte(nil), g.buf[:g.n]...), g.flavor, g.didHost
 }
